@@ -2271,6 +2271,12 @@ class Head(Expr):
 
     def _simplify_down(self):
         if isinstance(self.frame, Elemwise):
+            if any(
+                isinstance(op, Expr) and self.frame._broadcast_dep(op)
+                for op in self.frame.operands
+            ):
+                # rows of a broadcasted operand are not aligned with the frame
+                return
             operands = [
                 Head(op, self.n, self.operand("npartitions"))
                 if isinstance(op, Expr)
@@ -2383,6 +2389,12 @@ class Tail(Expr):
 
     def _simplify_down(self):
         if isinstance(self.frame, Elemwise):
+            if any(
+                isinstance(op, Expr) and self.frame._broadcast_dep(op)
+                for op in self.frame.operands
+            ):
+                # rows of a broadcasted operand are not aligned with the frame
+                return
             operands = [
                 Tail(op, self.n) if isinstance(op, Expr) else op
                 for op in self.frame.operands
